@@ -151,9 +151,11 @@ impl<'a> Read for OverReportReader<'a> {
         let n = self.inner.read(buf)?;
         let k = self.count;
         self.count += 1;
-        if self.on_read.map_or(true, |r| r == k) {
+        // A reader that over-reports at its end of file never ends: lie a
+        // bounded number of times, then behave.
+        if k < 64 && self.on_read.map_or(true, |r| r == k) {
             self.lied = true;
-            Ok(n + self.excess)
+            Ok(n.saturating_add(self.excess))
         } else {
             Ok(n)
         }
